@@ -26,7 +26,7 @@ ASSUMPTIONS = ['the renderers encode each site\'s layout and raise-amount conven
                'warnings are ignored on well-formed logs (the importers warn about their own time_zone_abbreviation field on every hand)',
                'the winnings / finishing_stacks metadata fields are not judged, only the replayed outcome']
 
-NAMES = ['Al ice', 'Bob_2', 'Cy', 'Dee99', 'Eve', 'Fox']
+NAMES = ['Al ice', 'Bob_2', 'Cy', 'Dee99', 'Eve', 'Fox', 'G.G', 'Hal-9', 'Ivy']
 METHOD = {k: 'from_' + k for k in SITES.RENDER}
 
 
@@ -64,7 +64,7 @@ def expected_bets(ops):
 
 def seatings(n, variant):
     """(seat number per engine player index, button seat) for every button position"""
-    base = list(range(1, n + 1)) if variant == 0 else [2, 5, 7, 9, 10, 12][:n]
+    base = list(range(1, n + 1)) if variant == 0 else [2, 5, 7, 9, 10, 12, 13, 15, 16][:n]
     out = []
     for b in range(n):
         if n == 2:
@@ -93,6 +93,7 @@ class Importer:
         self.cfg = cfg
         self.seen = set()
         self.k = 0
+        self.prev = {}
 
     def on_terminal(self, st, ms, ctx):
         from pokerkit.notation import HandHistory as H
@@ -101,7 +102,12 @@ class Importer:
         ops = list(st.operations)
         exp_bets = expected_bets(ops)
         sym = '$' if self.k % 3 else ''
-        for seats, button in seatings(n, self.k % 2):
+        allseat = seatings(n, self.k % 2)
+        if n > 4:
+            # full tables: three button positions per hand, rotating with the hand number (every position over the run)
+            pick = {(self.k + j * (len(allseat) // 3 or 1)) % len(allseat) for j in range(3)}
+            allseat = [x for j, x in enumerate(allseat) if j in pick]
+        for sno, (seats, button) in enumerate(allseat):
             hero = (self.k // 2) % n
             hand = SITES.Hand(st, NAMES[:n], seats, button, hero, hand_no=1000 + self.k, sym=sym)
             for site, render in SITES.RENDER.items():
@@ -181,6 +187,24 @@ class Importer:
                     continue
                 ctx.counters['imports_replayed'] += 1
                 self.seen.add((site, tuple(hh.actions)))
+                # a log file holds many hands: this hand appended to the previous one (another history, seating and hand number)
+                # must import as exactly those two histories, in order
+                if not cents and sno == 0:
+                    prev = self.prev.get(site)
+                    if prev is not None and prev[0] != text:
+                        ctx.counters['two_hand_logs_imported'] += 1
+                        try:
+                            with warnings.catch_warnings():
+                                warnings.simplefilter('ignore')
+                                both = list(getattr(H, METHOD[site])(prev[0] + text, error_status=True))
+                            got2 = [h.dumps() for h in both]
+                        except Exception as exc:
+                            got2 = f'{type(exc).__name__}: {exc}'
+                        if got2 != [prev[1], hh.dumps()]:
+                            ctx.violation('two-hand-log', f'{cfgd}: the previous hand followed by this one does not import as the two '
+                                          f'histories they give one at a time: {got2 if isinstance(got2, str) else len(got2)}\n{prev[0]}{text}',
+                                          sig=('C20', 'two-hand-log', site), extra={'site_cfg': cfgd})
+                    self.prev[site] = (text, hh.dumps())
                 if fin.status or list(fin.stacks) != [x * scale for x in st.stacks]:
                     kinds = [type(o).__name__ for o in ops]
                     if 'HoleCardsShowingOrMucking' not in kinds:
@@ -287,7 +311,9 @@ def cfgs(tier):
     out.append(({'stacks': (9, 14, 6), 'raises': 'minmax', 'chips': 'decimal'}, 2 if th else 1))
     if th:
         out.append(({'stacks': (9, 14, 6, 9, 14), 'raises': 'minmax'}, 2))
-        out.append(({'stacks': (9, 14, 6, 9, 14, 6), 'raises': 'minmax'}, 1))
+    # full tables: six and nine seats
+    out.append(({'stacks': (9, 14, 6, 9, 14, 6), 'raises': 'minmax'}, 2 if th else 1))
+    out.append(({'stacks': (9, 14, 6, 9, 14, 6, 12, 7, 9), 'raises': 'minmax'}, 1))
     return out
 
 
@@ -339,7 +365,7 @@ def finalize(merges, tier):
 
 
 def sanity(agg, counters, fam, tier):
-    msgs = [f'{k} == 0' for k in ('imports_replayed', 'corrupted_logs', 'corrupted_logs_reported') if not counters.get(k)]
+    msgs = [f'{k} == 0' for k in ('imports_replayed', 'corrupted_logs', 'corrupted_logs_reported', 'two_hand_logs_imported') if not counters.get(k)]
     for site in SITES.RENDER:
         if not counters.get(f'distinct_imports[{site}]'):
             msgs.append(f'no imports for {site}')
